@@ -278,6 +278,15 @@ func runStep(cfg Cfg, k *simk.Kernel, st StepIn) (obs StepObs) {
 		var err error
 		if st.Cmd.Kind == "init" {
 			err = manage.InitLayercakeBase(c)
+		} else if st.Cmd.Kind == "kmount" {
+			fl, _ := strconv.ParseUint(st.Cmd.C, 10, 64)
+			parts := strings.SplitN(st.Cmd.B, "|", 3) // target|fstype|data
+			for len(parts) < 3 {
+				parts = append(parts, "")
+			}
+			err = k.Mount(st.Cmd.A, parts[0], parts[1], uintptr(fl), parts[2])
+		} else if st.Cmd.Kind == "kumount" {
+			err = k.Unmount(st.Cmd.A, 0)
 		} else {
 			if missing := manage.CheckBaseSetUp(c); len(missing) > 0 {
 				err = fmt.Errorf("missing items %v", missing)
@@ -490,6 +499,15 @@ func cmdTerm(c Cmd) string {
 		return "CShake"
 	case "chroot":
 		return q.App("CChroot", q.Hx(c.A))
+	case "kmount":
+		fl, _ := strconv.ParseUint(c.C, 10, 64)
+		parts := strings.SplitN(c.B, "|", 3)
+		for len(parts) < 3 {
+			parts = append(parts, "")
+		}
+		return q.App("CKMount", q.Hx(c.A), q.Hx(parts[0]), q.Hx(parts[1]), q.N(fl), q.Hx(parts[2]))
+	case "kumount":
+		return q.App("CKUmount", q.Hx(c.A))
 	}
 	return "CProbe"
 }
